@@ -2,16 +2,15 @@
 their tier, resource caps and what they decide. Read by run.py."""
 
 
-# Harness families that write messages into the 96-byte reference-encoder buffer: CBMC keeps arrays
-# field-sensitive only up to 64 elements by default, which would make the literal control bytes in that
-# buffer symbolic for symex; for these families the limit is raised. (Not globally: with the raised limit
-# the SAT encoding of the string-argument writer runs out of memory, 43 s without it.)
-_BIGBUF = ("c01::", "gen_args::p_arg_", "gen_c04::", "c04::c04_skipper", "gen_c05::", "c06::c06_junk", "c06::c06_stream", "c16::", "c03::c03_corrupt")
+# CBMC keeps arrays field-sensitive only up to 64 elements by default, which makes the literal control bytes in
+# the 96-byte reference-encoder buffer (and small heap arrays) symbolic for symex; the limit is raised for every
+# harness except the families listed in _NO_BIGBUF (measured to be slower with it).
+_NO_BIGBUF = ("gen_args::w_arg_string",)
 
 
 def H(name, tier="quick", timeout=600, what="", **kw):
     d = {"name": name, "tier": tier, "timeout": timeout, "what": what, "mem_gb": 16}
-    if name.startswith(_BIGBUF):
+    if not name.startswith(_NO_BIGBUF):
         d["cbmc_args"] = ["--max-field-sensitivity-array-size", "128"]
     d.update(kw)
     return d
@@ -74,7 +73,7 @@ PROPS["C19"] = {
         H("c19::c19_utf8_model_vs_std", timeout=600, what="UTF-8 model == std::str::from_utf8 for all inputs up to 4 bytes"),
         H("c19::c19_ids_extended_header", timeout=600, what="application / context id: all contents of both 4-byte fields"),
         H("c19::c19_ids_standard_header_ecu", timeout=600, what="ECU id of the standard header: all contents"),
-        H("c19::c19_ids_storage_header_ecu", timeout=600, what="ECU id of the storage header: all contents"),
+        H("c19::c19_ids_storage_header_ecu", "thorough", 2400, what="ECU id of the storage header: all contents"),
     ],
 }
 
@@ -126,10 +125,10 @@ PROPS["C18"] = {
         H("c18::c18_u8_off32", timeout=900, what="U8 value, i32 offset"),
         H("c18::c18_u16_off64", timeout=900, what="U16 value, i64 offset"),
         H("c18::c18_i8_off64", timeout=900, what="I8 value, i64 offset"),
-        H("c18::c18_u64_off32_literal_q", timeout=900, what="U64 value (all), i32 offset (all), quantisation in {1, 0.25, 0.125, 3, -1}"),
-        H("c18::c18_u64_off64_literal_q", timeout=900, what="U64 value, i64 offset, literal quantisations"),
-        H("c18::c18_i64_off64_literal_q", timeout=900, what="I64 value, i64 offset, literal quantisations"),
-        H("c18::c18_u32_off64_literal_q", timeout=900, what="U32 value, i64 offset, literal quantisations"),
+        H("c18::c18_u64_off32_literal_q", timeout=900, allow_unsat_covers=["NaN quantization", "negative quantization", "infinite quantization"], what="U64 value (all), i32 offset (all), quantisation in {1, 0.25, 0.125, 3, -1}"),
+        H("c18::c18_u64_off64_literal_q", timeout=900, allow_unsat_covers=["NaN quantization", "negative quantization", "infinite quantization"], what="U64 value, i64 offset, literal quantisations"),
+        H("c18::c18_i64_off64_literal_q", timeout=900, allow_unsat_covers=["NaN quantization", "negative quantization", "infinite quantization"], what="I64 value, i64 offset, literal quantisations"),
+        H("c18::c18_u32_off64_literal_q", timeout=900, allow_unsat_covers=["NaN quantization", "negative quantization", "infinite quantization"], what="U32 value, i64 offset, literal quantisations"),
         H("c18::c18_i8_off32", "thorough", 1800), H("c18::c18_i16_off32", "thorough", 1800), H("c18::c18_i16_off64", "thorough", 1800),
         H("c18::c18_i32_off64", "thorough", 5400), H("c18::c18_i64_off32", "thorough", 5400), H("c18::c18_i64_off64", "thorough", 7200),
         H("c18::c18_u8_off64", "thorough", 1800), H("c18::c18_u16_off32", "thorough", 1800), H("c18::c18_u32_off32", "thorough", 3600),
@@ -198,6 +197,7 @@ PROPS["C01"] = {
     "trusted_base": ['reference encoder kani/src/refcodec.rs + shapes.rs (reading of the AUTOSAR layout)'],
     "harnesses": [H("c01::" + n, "quick", 900) for n in ["c01_p_nonverbose_min", "c01_p_nonverbose_ext_storage_be", "c01_p_control_le",
         "c01_p_verbose_bool_le", "c01_p_verbose_u32_named_be_storage", "c01_p_verbose_string_le", "c01_p_nettrace_le", "c01_p_nettrace_be"]]
+                 + [H("c01::c01_p_verbose_two_args_u8_bool", "thorough", 3600, mem_gb=40), H("c01::c01_p_nettrace_two_slices", "thorough", 3600, mem_gb=40)]
                  + [H("c14::c14_msin_via_extended_header_parse", "quick", 300, what="every MSIN code (incl. reserved message types) is accepted and decoded by the extended-header parser"),
                     H("c14::c14_msin_via_extended_header_write", "quick", 300, what="every message type value is written as its MSIN code")]
                  + [H(e["name"], e["tier"], 900) for e in _json.load(open(_os.path.join(_os.path.dirname(_os.path.abspath(__file__)), "catalogue.json")))["p_arg"]],
@@ -223,7 +223,7 @@ _wq = ["c02w_storage_header_id4", "c02w_storage_header_id1", "c02w_standard_head
        "c02w_standard_header_c5", "c02w_extended_header_id4", "c02w_extended_header_id1"]
 _wt = ["c02w_storage_header_id0", "c02w_storage_header_id3", "c02w_standard_header_c1", "c02w_standard_header_c3", "c02w_standard_header_c4",
        "c02w_standard_header_c6", "c02w_extended_header_id0", "c02w_extended_header_id3"]
-_w = _wq + ["c02w_payload_nonverbose_control", "c02w_payload_nettrace_le", "c02w_payload_nettrace_be", "c02w_payload_verbose_concat"]
+_w = _wq + ["c02w_payload_nonverbose_control", "c02w_payload_nettrace_le", "c02w_payload_nettrace_be"]
 _d = ["c02d_standard_header_full_length", "c02d_extended_header_full_length"]
 _dt = ["c02d_standard_header_all_bytes", "c02d_extended_header_all_bytes", "c02d_storage_header_fields"]
 PROPS["C02"] = {
@@ -238,7 +238,7 @@ PROPS["C02"] = {
     "harnesses": [H("c02w::" + n, "quick", 900) for n in _w] + [H("c02d::" + n, "quick", 900, allow_unsat_covers=["empty input incomplete", "15 bytes incomplete", "len == 9"]) for n in _d]
                  + [H("c02d::" + n, "thorough", 1800) for n in _dt]
                  + [H("c02w::" + n, "thorough", 900) for n in _wt]
-                 + [H("c02w::c02w_message_whole_nonverbose_min", "thorough", 1800)]
+                 + [H("c02w::c02w_message_whole_nonverbose_min", "thorough", 1800), H("c02w::c02w_payload_verbose_concat", "thorough", 3600, mem_gb=30)]
                  + [H("c14::c14_typeinfo_all_words", "quick", 300, what="accept/reject and decoded description for all 2^32 type-info words (shared with C14)")]
                  + [H(e["name"], e["tier"], 900) for e in _cat["w_arg"]],
 }
@@ -265,8 +265,9 @@ PROPS["C05"] = {
     "assumptions": COMMON_ASSUME + ['std::fmt::format stubbed (messages not compared)', 'core::str::from_utf8 replaced by a byte-wise model checked against std (c19_utf8_model_vs_std)', 'forward_to_next_storage_header replaced by its specification (first occurrence) in whole-message storage-mode harnesses; the real function is checked against that specification in C06', 'ids, names, units and string contents are literals in whole-message harnesses (whether a byte is NUL is control for the parser); arbitrary contents are decided in C19 / c02d'],
     "trusted_base": [],
     "harnesses": [H(e["name"], e["tier"], 900) for e in _cat["c05"]]
-                 + [H("c05::" + n, "quick", 600, what="cuts inside a header, unit level") for n in ["c05_hdr_std_min_0_4", "c05_hdr_std_all_0_4", "c05_hdr_std_all_4_8",
-                    "c05_hdr_std_all_8_12", "c05_hdr_std_all_12_16", "c05_hdr_std_weid_4_8", "c05_hdr_ext_0_5", "c05_hdr_ext_5_10"]]
+                 + [H("c05::" + n, "quick", 600, what="cuts inside a header, unit level") for n in ["c05_hdr_std_all_4_8", "c05_hdr_std_weid_4_8", "c05_hdr_ext_5_10"]]
+                 + [H("c05::" + n, "thorough", 3600, what="cuts inside a header, unit level") for n in ["c05_hdr_std_min_0_4", "c05_hdr_std_all_0_4",
+                    "c05_hdr_std_all_8_12", "c05_hdr_std_all_12_16", "c05_hdr_ext_0_5"]]
                  + [H("c02d::c02d_standard_header_all_bytes", "thorough", 1800), H("c02d::c02d_extended_header_all_bytes", "thorough", 1800)],
 }
 
@@ -279,21 +280,23 @@ PROPS["C07"] = {
     "outside": 'longer streams / schedules; storage-header mode of the reader (same code path with a 16-byte larger header read)',
     "assumptions": COMMON_ASSUME + ['std::fmt::format stubbed (messages not compared)', 'core::str::from_utf8 replaced by a byte-wise model checked against std (c19_utf8_model_vs_std)'],
     "trusted_base": ['std::io::BufReader, Read::read_exact'],
-    "harnesses": [H("c07::" + n, "quick", 1500) for n in ["c07_any_stream_no_storage_6", "c07_two_messages_any_schedule", "c07_truncated_tail_any_schedule", "c07_read_message_equals_slice_parse"]]
-                 + [H("c07::c07_default_capacity_any_declared_length", "thorough", 3600, mem_gb=40)],
+    "harnesses": [H("c07::" + n, "quick", 1500) for n in ["c07_any_stream_no_storage_6", "c07_first_of_two_messages_any_schedule", "c07_truncated_tail_any_schedule",
+                  "c07_read_message_equals_slice_parse"]]
+                 + [H("c07::c07_two_messages_any_schedule", "thorough", 5400, mem_gb=40), H("c07::c07_default_capacity_any_declared_length", "thorough", 5400, mem_gb=40)],
 }
 
 PROPS["C15"] = {
     "level": "model_checking",
     "level_text": 'Message::new is decided per payload kind (non-verbose, control, verbose, network trace) x optional fields for all data: recorded payload length == reference payload size, byte_len == headers + payload, verbose flag and argument count as the payload kind requires, add_storage_header(Some(ts)) only adds the given time and the header ECU id (or the default id); Argument::valid is decided for every (bool/f32/f64 kind x 15 value variants); Argument::len == serialised length for every layout and both byte orders (gen_args::w_arg_*).',
-    "level_note": "'parses back to an equal message' composes with P(shape) of C01 and W(shape) of C02; add_storage_header(None) reads the system clock (FFI): outside.",
+    "level_note": "'parses back to an equal message' composes with P(shape) of C01 and W(shape) of C02; add_storage_header(None) reads the system clock (FFI): outside. Message::new with a VERBOSE payload does not finish (15 min for one u16 argument): the argument vector sits inside the PayloadContent enum, whose payload data loses its concrete values when the configuration is moved into the constructor, so the writer loop runs over a symbolic number of arguments; for verbose payloads only the per-argument equation len == serialised length is decided (w_arg_*).",
     "functions": ['Message::new', 'Message::byte_len', 'Message::add_storage_header', 'StandardHeader::overall_length', 'PayloadContent::{is_verbose, arg_count, as_bytes}', 'Argument::valid', 'Argument::len'],
     "bounds": '7 configuration shapes, <= 2 arguments / slices',
     "outside": 'configurations outside the catalogue; payloads > 64 KiB',
     "assumptions": COMMON_ASSUME + ['ids, names, units and string contents are literals in whole-message harnesses (whether a byte is NUL is control for the parser); arbitrary contents are decided in C19 / c02d'],
     "trusted_base": [],
-    "harnesses": [H("c15::" + n, "quick", 900) for n in ["c15_new_nonverbose_noext", "c15_new_nonverbose_ext_be", "c15_new_control", "c15_new_verbose_two_args",
-                  "c15_new_verbose_string", "c15_new_nettrace_le", "c15_new_nettrace_be", "c15_valid_rejects_mismatched_values"]],
+    "harnesses": [H("c15::" + n, "quick", 900) for n in ["c15_new_nonverbose_noext", "c15_new_nonverbose_ext_be", "c15_new_control",
+                  "c15_new_nettrace_le", "c15_new_nettrace_be", "c15_valid_rejects_mismatched_values"]]
+                 + [H(e["name"], e["tier"], 900, what="Argument::len == serialised length (and bytes == reference)") for e in _cat["w_arg"]],
 }
 
 PROPS["C16"] = {
